@@ -140,10 +140,20 @@ func DrawKindsTiered(maxFields int) []Kind {
 // DrawRecords draws nrec records of symbolic values for the kinds.
 func DrawRecords(kinds []Kind, nrec int) [][]Val {
 	recs := make([][]Val, nrec)
+	nvar := 0
+	for _, k := range kinds {
+		if k.IsVar() {
+			nvar++
+		}
+	}
+	// the full menu of boundary lengths is used while at most two variable-length
+	// values are drawn in all; beyond that the product of length choices explodes
+	// (two string fields x three records x six lengths = 46 k shapes for one template)
+	reduced := len(kinds) >= 3 || nvar*nrec > 2
 	for r := range recs {
 		recs[r] = make([]Val, len(kinds))
 		for i, k := range kinds {
-			recs[r][i] = Draw(k, "value", PickLenR(k, "len", len(kinds) >= 3))
+			recs[r][i] = Draw(k, "value", PickLenR(k, "len", reduced))
 		}
 	}
 	return recs
